@@ -290,6 +290,28 @@ fn do_expand(case: &Value) -> Value {
                 let parsed = syn::parse2::<syn::File>(ts);
                 match parsed {
                     Ok(f) => {
+                        // the argument lists of the formatting macros the expansion calls must be lists of expressions
+                        // (syn keeps a macro's body as opaque tokens: `write!(f, "lit", , )` would pass unnoticed)
+                        struct MacroArgs(Option<String>);
+                        impl<'ast> syn::visit::Visit<'ast> for MacroArgs {
+                            fn visit_macro(&mut self, m: &'ast syn::Macro) {
+                                let name = m.path.segments.last().map(|s| s.ident.to_string()).unwrap_or_default();
+                                if matches!(name.as_str(), "write" | "writeln" | "format_args" | "panic" | "unreachable" | "matches") {
+                                    let r = m.parse_body_with(syn::punctuated::Punctuated::<syn::Expr, syn::Token![,]>::parse_terminated);
+                                    if let Err(e) = r {
+                                        if self.0.is_none() && name != "matches" {
+                                            self.0 = Some(format!("{}!({}): {}", name, m.tokens, e));
+                                        }
+                                    }
+                                }
+                                syn::visit::visit_macro(self, m);
+                            }
+                        }
+                        let mut ma = MacroArgs(None);
+                        syn::visit::Visit::visit_file(&mut ma, &f);
+                        if let Some(msg) = ma.0 {
+                            return json!({"outcome": "ok_unparsable", "msg": msg, "tokens": text});
+                        }
                         syn::visit::Visit::visit_file(&mut coll, &f);
                         let mut rc = RefCollector { refs: Default::default(), bound: Default::default() };
                         syn::visit::Visit::visit_file(&mut rc, &f);
